@@ -428,11 +428,19 @@ class PyEval(MiniEval):
                 base[self.ev(target.slice, env)] = value
                 return
             if isinstance(base, Tok):
+                h = base.attrs.get("__methods__", {}).get("__setitem__")
+                if h is not None:
+                    h(base, [self.ev(target.slice, env), value])
+                    return
                 for c in base.attrs.get("__classes__", ()):
                     fm = c.find_method("__setitem__")
                     if fm is not None:
                         self.call_dunder(fm, base, [self.ev(target.slice, env), value], env)
                         return
+                if "__getitem__" in base.attrs:
+                    # a modelled mapping that answers reads itself: remembering the store under the TEXT of the target
+                    # (`dfg[var]`) would shadow later reads made with another binding of `var`
+                    raise Unsupported(f"store into {base!r}[…] (the token models reads only)")
             if isinstance(base, list) and not isinstance(target.slice, ast.Slice):
                 i = self.ev(target.slice, env)
                 if isinstance(i, int) and -len(base) <= i < len(base):
